@@ -294,4 +294,32 @@ def flowSizes (vs : SizeReq → Int × Int) (fit : Bool) (c : Int) : (Int × Int
 def boxSizes (vs : SizeReq → Int × Int) (fit : Bool) (c r : Int) : (Int × Int) × (Int × Int) :=
   ((c, r), vs (.frame fit c r))
 
+/-! ## `UrwidImage.render`: success, and the failure branch with `_ti_error_placeholder` -/
+
+/-- the `size` argument of `render` -/
+inductive SizeArg
+  | box (c r : Int)     -- `len(size) == 2`
+  | flow (c : Int)      -- `len(size) == 1`
+deriving Repr
+
+/-- what `render` returns or does -/
+inductive Rendered
+  | image (cols rows imgCols imgRows : Int)   -- `UrwidImageCanvas(render, size, image._size)`
+  | placeholder (size : List Int)             -- `type(self)._ti_error_placeholder.render(size, focus)`
+  | raised                                    -- the render exception propagates (`raise`)
+deriving DecidableEq, Repr
+
+/-- `UrwidImage.render(size)`: the sizes are computed first (for a flow widget `size` is *rebound* to
+    `(size[0], image._size[1])`), then the `try`: `renderFails` = `_format_render(_renderer(…))` raises;
+    `hasPlaceholder` = `_ti_error_placeholder is not None`. The placeholder is rendered with the
+    rebound, two-element `size` — i.e. as a box of the very size the image canvas would have had. -/
+def widgetRender (vs : SizeReq → Int × Int) (fit : Bool) (arg : SizeArg) (renderFails hasPlaceholder : Bool) : Rendered :=
+  let sizes := match arg with
+    | .box c r => boxSizes vs fit c r
+    | .flow c => flowSizes vs fit c
+  let size := sizes.1
+  if renderFails then
+    if hasPlaceholder then .placeholder [size.1, size.2] else .raised
+  else .image size.1 size.2 sizes.2.1 sizes.2.2
+
 end TIV.C17
